@@ -5,6 +5,11 @@ let negb = function
 | true -> false
 | false -> true
 
+(** val fst : ('a1 * 'a2) -> 'a1 **)
+
+let fst = function
+| (x, _) -> x
+
 (** val snd : ('a1 * 'a2) -> 'a2 **)
 
 let snd = function
